@@ -24,6 +24,8 @@ type C02 struct {
 	Chain  string
 	Stranger sdk.AccAddress
 	StakeOps bool
+	TopNonce bool  // validator A may claim the event nonce 2^64-1
+	Keyless  []int // validators that registered no keys for the chain (they vote from their own accounts)
 }
 
 func NewC02(powers []int64, nonces int, stakeOps bool) *C02 {
@@ -40,6 +42,20 @@ func (c *C02) SeedPaths() [][]engine.Op { return [][]engine.Op{{}} }
 func (c *C02) Genesis() hub.Genesis {
 	// unbonded validators keep a nominal power in the table row so that Rebond restores it
 	g := StdGenesis(c.Vals, c.Powers, []sdk.AccAddress{c.User, c.Stranger}, nil)
+	for _, k := range c.Keyless {
+		for _, es := range g.Hub.ExternalStates {
+			if es.ChainId != c.Chain {
+				continue
+			}
+			var keep []*mhubtypes.MsgDelegateKeys
+			for _, dk := range es.DelegateKeys {
+				if dk.ValidatorAddress != c.Vals[k].Oper.String() {
+					keep = append(keep, dk)
+				}
+			}
+			es.DelegateKeys = keep
+		}
+	}
 	for i := range g.Staking {
 		if c.Powers[i] == 0 {
 			g.Staking[i].Power = 7
@@ -107,6 +123,11 @@ func (c *C02) Ops(s *HState) []engine.Op {
 		}
 	}
 	ops = append(ops, engine.OpN("Vote", 0, 1, 0, 2))
+	if c.TopNonce {
+		// validator A's claim of the nonce 2^64-1 (a first claim may carry any nonce): its cursor then stands at the top of
+		// the range; claimed again and again it must not be recorded again
+		ops = append(ops, engine.OpN("Vote", 0, -1, 0, 0), engine.OpN("Vote", 0, -1, 1, 0))
+	}
 	// the last validator reports nonce 1 with an amount that differs from variant 0 only above bit 64
 	ops = append(ops, engine.OpN("Vote", len(c.Vals)-1, 1, 2, 0))
 	if c.StakeOps {
@@ -173,6 +194,16 @@ func (c *C02) Do(in *hub.Instance, gg Ghost, op engine.Op, st *engine.Step) {
 		if kind == 2 {
 			st.Violate("C02", "vote_accepted_from_unknown_account", "getSignerValidator", "stranger account's claim was recorded: votes %v", after)
 			return
+		}
+		for _, b := range before {
+			if b == c.Vals[v].Oper.String() {
+				st.Violate("C02", "validator_recorded_twice_on_one_record", "recordEventVote", "validator %d had voted for event %d/%d already, its claim was recorded again: votes %v -> %v", v, n, va, before, after)
+			}
+		}
+		for k, who := range g.Voted {
+			if strings.HasPrefix(k, fmt.Sprintf("%d/", n)) && k != fmt.Sprintf("%d/%d", n, va) && strings.Contains(who, fmt.Sprintf("[%d]", v)) {
+				st.Violate("C02", "second_vote_for_a_nonce", "recordEventVote", "validator %d voted for %s and now for %d/%d", v, k, n, va)
+			}
 		}
 		if len(after) != len(before)+1 || after[len(after)-1] != c.Vals[v].Oper.String() {
 			st.Violate("C02", "vote_attributed_to_wrong_validator", "recordEventVote", "signer of validator %d (kind %d): votes %v -> %v", v, kind, before, after)
